@@ -450,10 +450,25 @@ func (e *executor) step(op opT) error {
 	case "deldir":
 		// Delete of an absent key that names an EMPTY directory left behind by earlier deletes: like any
 		// delete of an absent key it reports success; keys written below it afterwards must work as ever
+		var below []string
 		for k := range e.m.objs {
 			if strings.HasPrefix(k, op.Dir+"/") {
-				return nil // not empty: not generated (a file system refuses, an object store has no such object)
+				below = append(below, k)
 			}
+		}
+		if len(below) > 0 {
+			// the name is a proper path prefix of existing keys but no key itself: whether the delete of this
+			// absent key reports success (object store) or is refused (a directory that is not empty), the keys
+			// below it are other objects and must stay
+			e.count("delete_name_with_keys_below")
+			_ = e.s.Delete(e.ctx, op.Dir)
+			sort.Strings(below)
+			for _, k := range below {
+				if err := e.checkKey(k); err != nil {
+					return fmt.Errorf("after Delete(%q), an absent key that is a path prefix of %q: %v", op.Dir, k, err)
+				}
+			}
+			return nil
 		}
 		for d := range e.m.dirs {
 			if strings.HasPrefix(d, "/"+op.Dir+"/") {
